@@ -157,7 +157,7 @@ def run(case: dict, ctx) -> dict:
         tail = rng.choice([0, 0, rng.randrange(0, spb)]) if n else 0
         sf, layer, meta = w.build_dynamic(
             rng, block_size=bs, nblocks=n, tail_cut_sectors=tail, placement=case["placement"], bitmaps=case["bitmaps"],
-            tag=rng.getrandbits(48), header_off=rng.choice([512, 512, 1024, 512 * rng.randrange(1, 40)]),
+            tag=rng.getrandbits(48), header_off=rng.choice([512, 512, 1024, 512 * rng.randrange(1, 40), (4 << 30) - 512, 6 << 30]) if bs >= 4096 else 512,
             table_gap=rng.choice([0, 0, 1, 7]), extra_entries=rng.choice([0, 0, 1, 5]),
             orig_size=rng.choice([None, None, bs * rng.randrange(1, 3 * n + 2), SECTOR * rng.randrange(1, 100)]),
             table_place=rng.choice(["front", "front", "behind", "middle"]),
